@@ -37,20 +37,22 @@ theorem not_noComplete_of_mem (l r : List ObjRecv.WCall) (h : ObjRecv.WCall.comp
       · cases h
       · simpa [ObjRecv.noComplete] using ih h
 
+variable (P : ObjRecv.Params)
+
 /-- ghost "attached" -/
-def attachedAny : Any → Bool
+def attachedAny : Any P → Bool
   | .inl m => Mini.attached m
   | .inr f => f.st.fdtId.isSome
 
-def toiAny : Any → Nat
+def toiAny : Any P → Nat
   | .inl m => m.toi
   | .inr f => f.st.toi
 
 /-- facts about one `push` of the ObjRecv-backed object -/
-theorem pushN_facts (o : Obj) (p : Recv.Pkt) :
-    (pushN o p).1.st.toi = o.st.toi ∧ (pushN o p).1.st.fdtId = o.st.fdtId ∧
-    (o.st.fdtId = none → (pushN o p).2 = []) ∧
-    (WEv.complete ∈ (pushN o p).2 → (pushN o p).1.st.state = .completed) := by
+theorem pushN_facts (o : Obj P) (p : Recv.Pkt) :
+    (pushN P o p).1.st.toi = o.st.toi ∧ (pushN P o p).1.st.fdtId = o.st.fdtId ∧
+    (o.st.fdtId = none → (pushN P o p).2 = []) ∧
+    (WEv.complete ∈ (pushN P o p).2 → (pushN P o p).1.st.state = .completed) := by
   unfold pushN
   by_cases hf : o.fault = true
   · rw [if_pos hf]; exact ⟨rfl, rfl, fun _ => rfl, fun h => by simp at h⟩
@@ -58,8 +60,8 @@ theorem pushN_facts (o : Obj) (p : Recv.Pkt) :
     split
     · exact ⟨rfl, rfl, fun _ => rfl, fun h => by simp at h⟩
     · rename_i st' h
-      have hg := ObjRecv.push_grows params o.st (toPkt p) h
-      have hfd := ObjRecv.push_fdtId params o.st (toPkt p) o.reach.inv h
+      have hg := ObjRecv.push_grows P o.st (toPkt p) h
+      have hfd := ObjRecv.push_fdtId P o.st (toPkt p) o.reach.inv h
       refine ⟨hg.1, hfd.1, fun hn => newCalls_same _ _ _ (hfd.2 hn).1, ?_⟩
       intro hm
       obtain ⟨l, hl⟩ := hg.2
@@ -68,13 +70,13 @@ theorem pushN_facts (o : Obj) (p : Recv.Pkt) :
       obtain ⟨c, hc, hw⟩ := List.mem_map.mp hm
       have hcl : ObjRecv.WCall.complete ∈ l := by
         rw [← wev_complete _ c hw]; exact List.mem_reverse.mp hc
-      exact ObjRecv.push_complete_state params o.st (toPkt p) o.reach.inv o.reach.jinv o.reach.kr h
+      exact ObjRecv.push_complete_state P o.st (toPkt p) o.reach.inv o.reach.jinv o.reach.kr h
         (by rw [hl]; exact not_noComplete_of_mem l _ hcl)
 
 /-- facts about one push of a TOI-0 packet (`attachFdt` with the packet's own entry, then `push`) -/
-theorem push0_facts (o : Obj) (p : Recv.Pkt) :
-    (push0 o p).1.st.toi = o.st.toi ∧
-    (WEv.complete ∈ (push0 o p).2 → (push0 o p).1.st.state = .completed) := by
+theorem push0_facts (o : Obj P) (p : Recv.Pkt) :
+    (push0 P o p).1.st.toi = o.st.toi ∧
+    (WEv.complete ∈ (push0 P o p).2 → (push0 P o p).1.st.state = .completed) := by
   unfold push0
   by_cases hf : o.fault = true
   · rw [if_pos hf]; exact ⟨rfl, fun h => by simp at h⟩
@@ -85,8 +87,8 @@ theorem push0_facts (o : Obj) (p : Recv.Pkt) :
       split
       · exact ⟨rfl, fun h => by simp at h⟩
       · rename_i st' h2
-        have hg1 := ObjRecv.attach_grows params o.st _ _ h
-        have hg2 := ObjRecv.push_grows params st1 (toPkt p) h2
+        have hg1 := ObjRecv.attach_grows P o.st _ _ h
+        have hg2 := ObjRecv.push_grows P st1 (toPkt p) h2
         refine ⟨by simp only []; rw [hg2.1, hg1.1], ?_⟩
         intro hm
         obtain ⟨l1, hl1⟩ := hg1.2
@@ -97,24 +99,24 @@ theorem push0_facts (o : Obj) (p : Recv.Pkt) :
         obtain ⟨c, hc, hw⟩ := List.mem_map.mp hm
         have hcl : ObjRecv.WCall.complete ∈ l2 ++ l1 := by
           rw [← wev_complete _ c hw]; exact List.mem_reverse.mp hc
-        have hr := ObjRecv.reach_push params st1 (toPkt p) (ObjRecv.reach_attach params o.st _ _ o.reach h) h2
+        have hr := ObjRecv.reach_push P st1 (toPkt p) (ObjRecv.reach_attach P o.st _ _ o.reach h) h2
         rcases hr.kr with hk | hk
         · exact absurd hk (by rw [hl]; exact not_noComplete_of_mem (l2 ++ l1) _ hcl)
         · exact hk
 
-theorem push_toi_full (o : Obj) (p : Recv.Pkt) : (push o p).1.st.toi = o.st.toi := by
+theorem push_toi_full (o : Obj P) (p : Recv.Pkt) : (push P o p).1.st.toi = o.st.toi := by
   unfold push
   split
-  · exact (push0_facts o p).1
-  · exact (pushN_facts o p).1
+  · exact (push0_facts P o p).1
+  · exact (pushN_facts P o p).1
 
-theorem push_eq_pushN (o : Obj) (p : Recv.Pkt) (hp : p.toi ≠ 0) : push o p = pushN o p := by
+theorem push_eq_pushN (o : Obj P) (p : Recv.Pkt) (hp : p.toi ≠ 0) : push P o p = pushN P o p := by
   unfold push; rw [if_neg hp]
 
-theorem attach_facts (o : Obj) (id : Nat) (fdt : FdtAbs) :
-    (attachFdt o id fdt).1.st.toi = o.st.toi ∧
-    ((attachFdt o id fdt).2.1 = false → (attachFdt o id fdt).1.st.fdtId = o.st.fdtId ∧ (attachFdt o id fdt).2.2 = []) ∧
-    ((attachFdt o id fdt).2.1 = true → (fdt.getFile o.st.toi).isSome = true) := by
+theorem attach_facts (o : Obj P) (id : Nat) (fdt : FdtAbs) :
+    (attachFdt P o id fdt).1.st.toi = o.st.toi ∧
+    ((attachFdt P o id fdt).2.1 = false → (attachFdt P o id fdt).1.st.fdtId = o.st.fdtId ∧ (attachFdt P o id fdt).2.2 = []) ∧
+    ((attachFdt P o id fdt).2.1 = true → (fdt.getFile o.st.toi).isSome = true) := by
   unfold attachFdt
   by_cases hf : o.fault = true
   · rw [if_pos hf]; exact ⟨rfl, fun _ => ⟨rfl, rfl⟩, fun h => by simp at h⟩
@@ -123,28 +125,28 @@ theorem attach_facts (o : Obj) (id : Nat) (fdt : FdtAbs) :
     split
     · exact ⟨rfl, fun _ => ⟨rfl, rfl⟩, fun h => by simp at h⟩
     · rename_i st' ok h
-      have hg := ObjRecv.attach_grows params o.st id _ h
+      have hg := ObjRecv.attach_grows P o.st id _ h
       refine ⟨hg.1, ?_, ?_⟩
       · intro hfalse
         simp only [] at hfalse
         subst hfalse
-        have := ObjRecv.attach_false_silent params o.st id _ h
+        have := ObjRecv.attach_false_silent P o.st id _ h
         subst this
         exact ⟨rfl, newCalls_same _ _ _ rfl⟩
       · intro htrue
         simp only [] at htrue
         subst htrue
-        have := (ObjRecv.attach_true_listed params o.st id _ h).1
+        have := (ObjRecv.attach_true_listed P o.st id _ h).1
         simpa using this
 
-theorem drop_facts (o : Obj) (hn : o.st.fdtId = none) : drop o = [] := by
+theorem drop_facts (o : Obj P) (hn : o.st.fdtId = none) : drop P o = [] := by
   unfold drop
   exact newCalls_same _ _ _ (ObjRecv.drop_silent o.st o.reach.inv hn)
 
 /-- **`ObjIface.Law` for the full object model** -/
-def law : iface.Law :=
-  { attached := attachedAny
-    toi := toiAny
+def law : (iface P).Law :=
+  { attached := attachedAny P
+    toi := toiAny P
     new_attached := fun t mc => by
       rfl
     new_toi := fun t mc => by
@@ -152,68 +154,68 @@ def law : iface.Law :=
     push_toi := fun o p => by
       cases o with
       | inl m => exact Mini.law.push_toi m p
-      | inr f => exact push_toi_full f p
+      | inr f => exact push_toi_full P f p
     push_attached := fun o p hp => by
       cases o with
       | inl m => exact Mini.law.push_attached m p hp
       | inr f =>
-        show (push f p).1.st.fdtId.isSome = f.st.fdtId.isSome
-        rw [push_eq_pushN f p hp, (pushN_facts f p).2.1]
+        show (push P f p).1.st.fdtId.isSome = f.st.fdtId.isSome
+        rw [push_eq_pushN P f p hp, (pushN_facts P f p).2.1]
     push_silent := fun o p hp ha => by
       cases o with
       | inl m => exact Mini.law.push_silent m p hp ha
       | inr f =>
-        show (push f p).2 = []
+        show (push P f p).2 = []
         have hn : f.st.fdtId = none := by
           have : f.st.fdtId.isSome = false := ha
           cases hfd : f.st.fdtId with
           | none => rfl
           | some i => rw [hfd] at this; simp at this
-        rw [push_eq_pushN f p hp]
-        exact (pushN_facts f p).2.2.1 hn
+        rw [push_eq_pushN P f p hp]
+        exact (pushN_facts P f p).2.2.1 hn
     attach_toi := fun o id fdt => by
       cases o with
       | inl m => exact Mini.law.attach_toi m id fdt
-      | inr f => exact (attach_facts f id fdt).1
+      | inr f => exact (attach_facts P f id fdt).1
     attach_fail := fun o id fdt hf ha => by
       cases o with
       | inl m => exact Mini.law.attach_fail m id fdt hf ha
       | inr f =>
-        have h := (attach_facts f id fdt).2.1 hf
+        have h := (attach_facts P f id fdt).2.1 hf
         refine ⟨?_, h.2⟩
-        show (attachFdt f id fdt).1.st.fdtId.isSome = false
+        show (attachFdt P f id fdt).1.st.fdtId.isSome = false
         rw [h.1]; exact ha
     attach_lists := fun o id fdt hs => by
       cases o with
       | inl m => exact Mini.law.attach_lists m id fdt hs
-      | inr f => exact (attach_facts f id fdt).2.2 hs
+      | inr f => exact (attach_facts P f id fdt).2.2 hs
     drop_silent := fun o ha => by
       cases o with
       | inl m => exact Mini.law.drop_silent m ha
       | inr f =>
-        show drop f = []
+        show drop P f = []
         have hn : f.st.fdtId = none := by
           have : f.st.fdtId.isSome = false := ha
           cases hfd : f.st.fdtId with
           | none => rfl
           | some i => rw [hfd] at this; simp at this
-        exact drop_facts f hn }
+        exact drop_facts P f hn }
 
 /-- **`ObjIface.CompleteSound` for the full object model** -/
-theorem completeSound : iface.CompleteSound := by
+theorem completeSound : (iface P).CompleteSound := by
   intro o p hm
   cases o with
   | inl m => exact Mini.completeSound m p hm
   | inr f =>
-    show stateOf (push f p).1.st.state = .completed
-    have hm' : WEv.complete ∈ (push f p).2 := hm
+    show stateOf (push P f p).1.st.state = .completed
+    have hm' : WEv.complete ∈ (push P f p).2 := hm
     unfold push at hm' ⊢
     split at hm'
     · rename_i h0
-      rw [if_pos h0, (push0_facts f p).2 hm']
+      rw [if_pos h0, (push0_facts P f p).2 hm']
       rfl
     · rename_i h0
-      rw [if_neg h0, (pushN_facts f p).2.2.2 hm']
+      rw [if_neg h0, (pushN_facts P f p).2.2.2 hm']
       rfl
 
 end Flute.Recv.Full
